@@ -28,6 +28,7 @@ RULE = (
     "dropped records' CURIEs do not expand and that URIs whose owner is kept compress as in the parent. key = number of "
     "converters x overlap kinds between them (curie / uri / case-only / via-synonym / bridge) x mode x outcome; non-trivial "
     "= at least two converters overlap, or P contains a synonym / unknown string / is empty."
+    ' The at-scale chain includes a record with 31-300 synonyms one of which a record of the second converter re-uses (round 21).'
 )
 ASSUMPTIONS = ["fold model rtmon.spec.chain_fold", "default delimiter ':' (the delimiter is not among the dimensions C09 quantifies over)"]
 
